@@ -2,6 +2,9 @@ module verif/harness
 
 go 1.18
 
-require github.com/google/inverting-proxy v0.0.0
+require (
+	github.com/google/inverting-proxy v0.0.0
+	golang.org/x/net v0.23.0
+)
 
 replace github.com/google/inverting-proxy => /repo
